@@ -49,7 +49,8 @@ Definition px_into_srgb : px -> px := run_steps (fun p => p) into_srgb_steps.
 Definition px_into_linear : px -> px := run_steps (fun p => p) into_linear_rgb_steps.
 
 (* ------------------------------------------------------------------ feColorMatrix *)
-Inductive cm_kind := CMMatrix (m : list f32) | CMSaturate (v : f32) | CMLuminanceToAlpha.
+Inductive cm_kind := CMMatrix (m : list f32) | CMSaturate (v : f32) | CMLuminanceToAlpha
+  | CMHueRotate (a1 a2 : f32).   (* a1 = cos, a2 = sin of the angle in radians (libm; for 0 degrees exactly 1 and 0) *)
 (* f32::max(v, 0.0) for the non-NaN v of a PositiveF32 *)
 Definition fmax0 (v : f32) : f32 := if flt v fzero then fzero else v.
 Definition cm_kernel (k : cm_kind) (p : px) : px :=
@@ -65,6 +66,10 @@ Definition cm_kernel (k : cm_kind) (p : px) : px :=
          pb := cm_from_normalized (cm_saturate_b m r g b a); pa := pa p |}
   | CMLuminanceToAlpha =>
       {| pr := 0; pg := 0; pb := 0; pa := cm_from_normalized (cm_luminance_a r g b a) |}
+  | CMHueRotate a1 a2 =>
+      let m := cm_hue_coefs a1 a2 in
+      {| pr := cm_from_normalized (cm_hue_r m r g b a); pg := cm_from_normalized (cm_hue_g m r g b a);
+         pb := cm_from_normalized (cm_hue_b m r g b a); pa := pa p |}
   end.
 (* filter/mod.rs apply_color_matrix on one pixel (after into_color_space) *)
 Definition px_color_matrix (k : cm_kind) : px -> px := run_steps (cm_kernel k) apply_color_matrix_steps.
